@@ -2,12 +2,32 @@
 // unit-test corpus (after unittests/unit_test.inc) on a fresh engine, in one of four configurations, and
 // report the outcome and everything the script printed.
 //   <hints 0|1> <opt|noopt> <hex path>
-// Output: res=<ok|exit N|eval_error <reason>|exception <what>|boxed <type>> out=<len>:<fnv1a of stdout> head=<hex of first 160 bytes>
+// Output: res=<ok|exit N|eval_error <reason>|exception <what>|boxed <type>> out=<len>:<fnv1a of stdout> head=<hex of first 160 bytes> shape=<stacks>/<call_params>/<depth>
 #include <chaiscript/chaiscript.hpp>
 #include "vcommon.hpp"
 #include <fcntl.h>
 #include <unistd.h>
 using namespace chaiscript;
+
+namespace chaiscript_verif {
+  struct Access {
+    static chaiscript::detail::Dispatch_Engine &engine(ChaiScript_Basic &c) { return c.m_engine; }
+  };
+}
+
+// the Stack_Holder after the script: stacks / call_params / call depth (C09: must be the resting shape however the script ended)
+static std::string g_shape;
+static void read_shape(ChaiScript_Basic &chai) {
+  auto &sh = chaiscript_verif::Access::engine(chai).get_stack_holder();
+  std::string shape = "[";
+  for (size_t i = 0; i < sh.stacks.size(); ++i) shape += (i ? "," : "") + std::to_string(sh.stacks[i].size());
+  shape += "]/" + std::to_string(sh.call_params.size()) + "/" + std::to_string(sh.call_depth);
+  size_t saved = 0;
+  for (auto &p : sh.call_params) saved += p.size();
+  if (saved != 0) shape += "/SAVED-PARAMS-LEFT=" + std::to_string(saved);
+  try { if (chai.eval<int>("1 + 1") != 2) shape += "/ENGINE-BROKEN"; } catch (...) { shape += "/ENGINE-BROKEN"; }
+  g_shape = shape;
+}
 
 struct Identity_Pass {
   template<typename T>
@@ -69,6 +89,7 @@ static std::string run_one(Chai &chai, const std::string &dir, const std::string
   } catch (const Boxed_Value &bv) { res = std::string("boxed ") + bv.get_type_info().bare_name();
   } catch (const std::exception &e) { res = "exception " + vh::clean(e.what(), 100);
   } catch (...) { res = "unknown-exception"; }
+  read_shape(chai);
   return res;
 }
 
@@ -102,7 +123,7 @@ int main() {
       const std::string out = drain();
       std::uint64_t h = 1469598103934665603ull;
       for (unsigned char c : out) { h ^= c; h *= 1099511628211ull; }
-      reply = "res=" + res + " out=" + std::to_string(out.size()) + ":" + vh::hex64(h) + " head=" + vh::hex_encode(out.substr(0, 160));
+      reply = "res=" + res + " out=" + std::to_string(out.size()) + ":" + vh::hex64(h) + " head=" + vh::hex_encode(out.substr(0, 160)) + " shape=" + g_shape;
     }
     reply += "\n";
     if (write(g_real, reply.data(), reply.size()) < 0) return 1;
